@@ -505,6 +505,23 @@ def check_forest(impl):
       except Exception as e:      # pylint: disable=broad-except
         hits.append(('oracle-raises', type(e).__name__, 'checking root #%d at %r raised %r' % (ri, str(x.sym_path), e)))
     D.walk(root, visit)
+  if not hits and not impl.partial_used and not getattr(impl, 'by_ref_used', False) and not impl.by_reference_roots:
+    # (no allow_partial scope, nothing handed over by reference: every typed dict / list was created by its container)
+    P = pg()
+    for ri, root in enumerate(impl.roots):
+      if root is None or hits: continue
+      def visit(x, parent, key, ri=ri):
+        if hits or parent is None or isinstance(x, P.Object) or impl.spec_of(x) is None: return
+        try:
+          ps = impl.spec_of(parent)
+          f = ps.element.value if isinstance(parent, P.List) else ps.schema.get_field(key).value
+          if f.frozen: return         # (a container held by a frozen field: open finding of its own)
+        except Exception:     # pylint: disable=broad-except
+          return
+        if bool(x.allow_partial) and not bool(parent.allow_partial):
+          hits.append(('partial-flag-differs', type(x).__name__, 'root #%d at %r (%s) accepts partial values, its container does not: a required member can be removed from it' % (
+              ri, str(x.sym_path), type(x).__name__)))
+      D.walk(root, visit)
   if not hits:
     for x, tags in foreign_specs(impl):
       if any(t not in LEGACY_TAGS for t in tags):
@@ -670,6 +687,10 @@ class Oracle:
     self.by_reference = False
     self.obj_writes = []
     impl.partial_now = scope_partial(scope) is True
+    try:
+      if any(v[0] != 3 for v in _op_values(op)) or op[0] in (D.CLONE, D.LCOPY, D.DCOPY, D.LADD, D.LMUL): impl.by_ref_used = True
+    except Exception:     # pylint: disable=broad-except
+      impl.by_ref_used = True
     try:
       P = pg()
       for x, key, v in written_keyed(impl, op):
@@ -1499,6 +1520,14 @@ def corpus():
   tb6 = Table(); Ay = tb6.add(T.Dict([('x', T.Any()), ('y', T.Int())])); Pb = tb6.add(T.Dict([('c', T.Int()), ('b', T.Bool(default=True))]))
   out['partial-value-in-a-refused-batch'] = (mkcase(tb6, [troot(0, Ay, {'x': 1, 'y': 1}), troot(0, Pb, {}, partial=1)],
                                                              [(NS, [D.DUPDATE, Pp(0), [[ek('x'), [1, 1, []]], [ek('y'), PV('bad')]]])]), False)
+  ud = T.Union([T.List(T.Dict([('p', T.Int())])), T.Int()], default=[{'p': 1}])
+  tbu = Table((T.Dict([('x', ud), ('y', T.Any(default=None))]), None, None)); Du = tbu.add(T.Dict([('x', copy.deepcopy(ud))]))
+  out['union-field-with-a-container-default'] = (mkcase(tbu, [troot(2, tbu.cls[0], {}), troot(0, Du, {})], [
+      (NS, [D.DDEL, Pp(0, 'x', 0), 0, ek('p')]), (NS, [D.DDEL, Pp(1, 'x', 0), 1, ek('p')]), (NS, [D.DPOP, Pp(0, 'x', 0), ek('p'), []])]), False)
+  fz = T.List(T.Int()).freeze([1, 2])
+  tbf = Table((T.Dict([('x', fz), ('y', T.Any(default=None))]), None, None)); Df = tbf.add(T.Dict([('x', T.Dict([('b', T.Int())]).freeze({'b': 1}))]))
+  out['frozen-container-default-is-not-shared'] = (mkcase(tbf, [troot(2, tbf.cls[0], {}), troot(2, tbf.cls[0], {}), troot(0, Df, {}), troot(0, Df, {})], [
+      (NS, [D.CLONE, Pp(0), 0]), (NS, [D.CLONE, Pp(2), 0])]), False)
   return out
 
 def open_witnesses():
@@ -1894,11 +1923,58 @@ def transform_field_checks():
   -> [(label, problem or None)]"""
   P = pg(); T = P.typing
   ident = lambda v: v
-  kinds = [('List-max_size', lambda tr: T.List(T.Int(), max_size=2, transform=tr), [1], [[6, 7, 8], ['a'], 5]),
+  def plain_tr(v):       # a transform that hands back a plain copy (list / dict), as `transform=list` does
+    return list(v) if isinstance(v, list) else dict(v) if isinstance(v, dict) else v
+  kinds0 = [('List-max_size', lambda tr: T.List(T.Int(), max_size=2, transform=tr), [1], [[6, 7, 8], ['a'], 5]),
            ('List-element', lambda tr: T.List(T.Int(min_value=0), transform=tr), [2], [[-1], 'x']),
            ('Dict-schema', lambda tr: T.Dict([('a', T.Int())], transform=tr), {'a': 1}, [{'a': 'bad'}, {'zz': 1}, [1]]),
            ('Int-range', lambda tr: T.Int(min_value=0, max_value=5, transform=tr), 3, [9, 'a']),
            ('Str', lambda tr: T.Str(transform=tr), 'a', [1])]
+  out0 = []
+  for tn, t in (('identity', ident), ('plain-copy', plain_tr)):
+    label = 'transform-field/Dict-extended-after-set_default/%s/spec.apply/{a: 50}' % tn
+    problem = None
+    try:
+      child = T.Dict(transform=t).set_default({'a': 1})
+      child.extend(T.Dict([('a', T.Int(max_value=10))]))
+      try:
+        child.apply({'a': 50}); problem = "{'a': 50} was accepted against the inherited Int(max_value=10)"
+      except (TypeError, ValueError, KeyError):
+        pass
+      child.apply({'a': 5})
+    except Exception as e:      # pylint: disable=broad-except
+      problem = problem or 'raised %s: %s' % (type(e).__name__, str(e)[:80])
+    out0.append((label, problem))
+    label = 'transform-field/List-frozen-after-construction/%s/spec.apply/[3]' % tn
+    problem = None
+    try:
+      sp = T.List(T.Int(), transform=t); sp.apply([1]); sp.extend(T.List(T.Int(max_value=2)))
+      try:
+        sp.apply([3]); problem = '[3] was accepted after the element was narrowed to Int(max_value=2)'
+      except (TypeError, ValueError, KeyError):
+        pass
+    except Exception as e:      # pylint: disable=broad-except
+      problem = problem or 'raised %s: %s' % (type(e).__name__, str(e)[:80])
+    out0.append((label, problem))
+  # a frozen container field: every instance gets its own copy of the frozen value (writing into one does not change the schema)
+  for cname, mkf, write in (('List', lambda: T.List(T.Int()).freeze([1, 2]), lambda v: v.append(3)), ('Dict', lambda: T.Dict([('b', T.Int())]).freeze({'b': 1}), lambda v: v.__setitem__('b', 2))):
+    label = 'transform-field/frozen-default/-/shared-default-object/%s' % cname
+    problem = None
+    try:
+      class Fz(P.Object):
+        x: mkf()
+      a, b = Fz(), Fz()
+      try: write(a.x)
+      except Exception:     # pylint: disable=broad-except
+        pass
+      dflt = Fz.__schema__.get_field('x').value.default
+      if plain(b.x) != plain(mkf().default) or plain(dflt) != plain(mkf().default) or plain(Fz().x) != plain(mkf().default):
+        problem = 'a write into the frozen %s of one instance changed the frozen value of the class: %s' % (cname, P.format(dflt, compact=True)[:60])
+    except Exception as e:      # pylint: disable=broad-except
+      problem = 'raised %s: %s' % (type(e).__name__, str(e)[:80])
+    out0.append((label, problem))
+  kinds = [(n + '/' + tn, (lambda tr, mk=mk, t=t: mk(t if tr is not None else None)), good, bads)
+           for n, mk, good, bads in kinds0 for tn, t in (('identity', ident), ('plain-copy', plain_tr))]
   out = []
   for kname, mk, good, bads in kinds:
     try:
@@ -1948,7 +2024,24 @@ def transform_field_checks():
       except Exception as e:        # pylint: disable=broad-except
         problem = 'a valid value is refused or stored in a form its spec refuses (%s: %s)' % (type(e).__name__, str(e)[:80])
       out.append((label, problem))
-  return out
+      # ... and the stored container checks later writes into it
+      if problem is None and isinstance(stored, (P.List, P.Dict)):
+        label = 'transform-field/%s/%s/later-write' % (kname, pname)
+        problem = None
+        try:
+          if stored.value_spec is None:
+            problem = 'the stored %s carries no value spec' % type(stored).__name__
+          else:
+            try:
+              if isinstance(stored, P.List): stored.append('not-an-int')
+              else: stored['a'] = 'not-an-int'
+              problem = 'a write into the stored value that its spec refuses was accepted: %s' % P.format(stored, compact=True)[:80]
+            except (TypeError, ValueError, KeyError):
+              pass
+        except Exception as e:      # pylint: disable=broad-except
+          problem = 'checking the stored value raised %s' % type(e).__name__
+        out.append((label, problem))
+  return out0 + out
 
 # ---- the check ---------------------------------------------------------------------------------------------------
 ERR_NAMES = {1: 'WritePermissionError', 2: 'KeyError', 3: 'IndexError', 4: 'TypeError', 5: 'ValueError', 6: 'AssertionError', 7: 'AttributeError',
@@ -2137,7 +2230,7 @@ def run(ctx):
     ctx.count(label, nontrivial=True, kind='transform-field')
     if problem:
       parts = label.split('/')
-      ctx.hit('C03/member-rejected/%s/transform-field' % parts[2], '%s: %s' % (label, problem), dict(kind='transform-field', label=label))
+      ctx.hit('C03/member-rejected/%s/transform-field' % parts[3], '%s: %s' % (label, problem), dict(kind='transform-field', label=label))
   ctx.extra['transform_field_checks'] = dict(checks=len(tfc), problems=sum(1 for _, p in tfc if p))
   ctx.extra['corpus_cases'] = len(corpus())
   # --- violation search when something is broken and the oracle has not hit: more histories biased to the op kinds that disagree
